@@ -753,7 +753,44 @@ class C18Executor(Executor):
     def call(self, st, f, args, kwargs, node):
         if isinstance(f, VExt) and f.sort == "Transport":
             return transport_call(self, st, f, args, kwargs, node)
+        if isinstance(f, VFunc) and f.how == "classattr" and f.b == "__init__" and isinstance(f.a, str) and f.a not in self.module.classes \
+                and args and isinstance(args[0], VRef) and not kwargs:
+            import builtins
+            b = getattr(builtins, f.a.split(".")[-1], None)
+            if isinstance(b, type) and issubclass(b, BaseException):
+                return [(st, NONE)]      # `Exception.__init__(self, msg)`: stores `args`, touches no named attribute
         return super().call(st, f, args, kwargs, node)
+
+    # -- zero-argument super() inside an exception class (round 6) ---------------------
+    def b_super(self, st, args, kwargs, node):
+        """`super()` in a method of a class whose ancestors -- inside the module none with an __init__ / __new__ / __setattr__
+        of its own, outside it only built-in exception classes -- leave construction to BaseException: the proxy's __init__
+        stores its positional arguments in `args` and touches no named attribute.  Any other class: unmodelled call."""
+        import builtins
+        fnode = self.cur_fn_stack[-1] if self.cur_fn_stack else None
+        q = next((k for k, n_ in self.module.functions.items() if n_ is fnode), None)
+        if args or kwargs or q is None or "." not in q:
+            return self.havoc_call(st, "super", args, node)
+        todo, seen, first = [q.rsplit(".", 1)[0]], set(), True
+        while todo:
+            cname = todo.pop()
+            if cname in seen:
+                continue
+            seen.add(cname)
+            cd = self.module.classes.get(cname)
+            if cd is None:
+                b = getattr(builtins, cname, None)
+                if not (isinstance(b, type) and issubclass(b, BaseException)):
+                    return self.havoc_call(st, "super", args, node)
+                continue
+            if not first and any(isinstance(x, (_ast.FunctionDef, _ast.AsyncFunctionDef)) and x.name in ("__init__", "__new__", "__setattr__")
+                                 for x in cd.body):
+                return self.havoc_call(st, "super", args, node)
+            if cd.keywords:
+                return self.havoc_call(st, "super", args, node)
+            first = False
+            todo.extend(_ast.unparse(b) for b in cd.bases)
+        return [(st, VExt("ExceptionSuper"))]
 
     # -- `f(**d)` with a dict whose keys are known (round 6) -------------------------
     def e_Call(self, n, st):
@@ -2992,11 +3029,42 @@ def lemmas():
     ]
 
 
+# ================================================================== Part E ==
+# The engine represents `SharePointRequestError(msg, status_code=.., body=.., url=..)` in client.py by an exception value
+# whose attributes ARE the keyword arguments (pyvc construct).  That is a statement about the class's constructor in
+# exceptions.py; it is discharged here on the constructor's real body (round 6: a constructor that rewrites the URL it is
+# given -- say, to strip a query string -- makes every "carries status and URL" clause of Part B talk about another value).
+EXC_FILE = "sharepoint2text/sharepoint_io/exceptions.py"
+CARRIED = ("status_code", "url")          # the statement: "the request error carrying status and URL"
+
+
+def exc_field_kept(name):
+    def w(c):
+        o = c.st.obj(c.args["self"].ref)
+        if o.kind != "obj" or o.data is None or name not in o.data:
+            return z3.BoolVal(False)
+        return same_value(o.data[name], c.args[name])
+    return w
+
+
+def part_e(reg):
+    reg.method_models[("ExceptionSuper", "__init__")] = lambda ex, st, obj, args, kwargs, node: [(st, NONE)]
+    return [FnContract(
+        target=f"{EXC_FILE}::SharePointRequestError.__init__",
+        params=[("self", p_obj("SharePointRequestError", {})), ("message", p_str()), ("status_code", p_opt(p_int())),
+                ("body", p_opt(p_str())), ("url", p_str())],
+        ensures=[(f"the-error-carries-the-{f}-it-was-given", exc_field_kept(f)) for f in CARRIED],
+        raises=[], total=True, modifies=("self",),
+        note="the request error reports the status and the URL it was constructed with, unchanged (what the engine assumes of "
+             "`SharePointRequestError(..)` at every raise site of client.py)",
+    )]
+
+
 def contracts(reg):
     install_string_models(reg)
     install_transport_models(reg)
     install_listing_models(reg)
-    return part_a(reg) + part_b(reg) + part_c(reg)
+    return part_a(reg) + part_b(reg) + part_c(reg) + part_e(reg)
 
 
 # ================================================================== Part D ==
